@@ -25,6 +25,12 @@ class Obj(dict):
         return id(self)
 
 
+class _Jump(Exception):
+    """`continue` / `break` reached while interpreting a loop body fragment."""
+    def __init__(self, node: ast.stmt) -> None:
+        self.node = node
+
+
 class _Return(Exception):
     def __init__(self, node: ast.Return, env: dict[str, Any]) -> None:
         self.node, self.env = node, env
@@ -389,6 +395,28 @@ def exec_body(stmts: list[ast.stmt], env: dict[str, Any], oracle: Oracle | None 
             continue
         if isinstance(st, ast.Expr):
             eval_expr(st.value, env, oracle)
+            continue
+        if isinstance(st, (ast.Continue, ast.Break)):
+            raise _Jump(st)
+        if isinstance(st, ast.Try):
+            try:
+                try:
+                    exec_body(st.body, env, oracle)
+                except Raised as ex_:
+                    raised = ast.unparse(ex_.node.exc.func if isinstance(ex_.node.exc, ast.Call) else ex_.node.exc).split(".")[-1] if ex_.node.exc is not None else ""
+                    for h in st.handlers:
+                        names = [] if h.type is None else [ast.unparse(x).split(".")[-1] for x in (h.type.elts if isinstance(h.type, ast.Tuple) else [h.type])]
+                        if h.type is None or raised in names or "Exception" in names or "BaseException" in names:
+                            if h.name:
+                                env[h.name] = ("EXC", raised)
+                            exec_body(h.body, env, oracle)
+                            break
+                    else:
+                        raise
+                else:
+                    exec_body(st.orelse, env, oracle)
+            finally:
+                exec_body(st.finalbody, env, oracle)
             continue
         if isinstance(st, ast.Match):
             subj = eval_expr(st.subject, env, oracle)
